@@ -394,6 +394,15 @@ impl C13Cell {
                     }
                 } else if l + w > 1 {
                     return Err(self.v("handled-twice", format!("client event #{} emitted while connecting: {l} local / {w} wire", em.n)));
+                } else if em.cfg_status == Some(St::Connecting) && !em.cfg_changed_later && l != 0 {
+                    // an app that stays a (connecting) client is not a server or singleplayer:
+                    // it must not run server-side logic for its own input
+                    return Err(self
+                        .v(
+                            "local-client-event",
+                            format!("client event #{} was emitted while the app stayed a connecting client; expected no local observation with the local-server identity, got {l}", em.n),
+                        )
+                        .feat("kind:client-while-connecting"));
                 }
             } else {
                 if w > 0 && !em.remote_is_recipient {
